@@ -1,5 +1,5 @@
 (* Props/C12.v — property C12: summary counters equal what the event stream contains. *)
-From CV Require Import Model.Base Model.Events Model.Stats Model.StatsSpec Proofs.BaseP Proofs.StatsP.
+From CV Require Import Model.Base Model.Events Model.Stats Model.StatsSpec Proofs.BaseP Proofs.StatsP Proofs.StatsP2.
 
 (* features, rules, the four step counters, parsing errors and hook errors are the numbers of
    matching events before run-Finished — for EVERY event list, contract-abiding or not *)
@@ -25,6 +25,31 @@ Theorem C12_summary_right_after_finished :
   forall last_own s e, sm_state s = InProgress -> snd e = EvFinished ->
     snd (sm_handle last_own s e) = [OEv e; OWrite (fst (sm_handle last_own s e))].
 Proof. exact summary_right_after_finished. Qed.
+
+(* the four SCENARIO counters (passed, skipped, failed, retried) equal the classification of the spec, for every
+   stream outside the recorded classes K12a-d whose attempts are well-formed (wf_attempts: Started, optional before
+   hook, the declared steps in order up to the first Skipped/Failed, optional after hook, Finished; Retries values
+   do not come back), whose Retries are consistent, and whose `last_own` oracle names the last declared step.
+   Scenarios may interleave arbitrarily. StatsP2 also shows by witnesses that none of the three can be dropped. *)
+Theorem C12_scenario_counters :
+  forall last_own steps_of es,
+    let evs := before_finished (map snd es) in
+    k12_class last_own steps_of (map snd es) = 0 ->
+    retry_consistent evs = true ->
+    wf_attempts steps_of evs = true ->
+    last_own_consistent last_own steps_of evs = true ->
+    let s := sm_final last_own es in
+    [n_passed (sm_scenarios s); n_skipped (sm_scenarios s); n_failed (sm_scenarios s); n_retried (sm_scenarios s)]
+    = firstn 4 (skipn 2 (spec_counts (map snd es))).
+Proof. exact scenario_counters_correct. Qed.
+
+Example C12_scenario_counters_nonvacuous :
+  k12_class ex_last_own ex_steps_of (map snd ex_stream) = 0 /\
+  retry_consistent (before_finished (map snd ex_stream)) = true /\
+  wf_attempts ex_steps_of (before_finished (map snd ex_stream)) = true /\
+  last_own_consistent ex_last_own ex_steps_of (before_finished (map snd ex_stream)) = true /\
+  firstn 4 (skipn 2 (spec_counts (map snd ex_stream))) = [1; 0; 1; 1].
+Proof. vm_compute. repeat split; reflexivity. Qed.
 
 Example C12_nonvacuous :
   let es := [(1, EvStarted); (2, EvFeatS 1); (3, EvScen 1 None 2 None ScStarted);
